@@ -66,6 +66,8 @@ M("C03", "fchk-pack-upper", F + "fchk.py", r"mat = arr\[np\.tril_indices\(arr\.s
 M("C03", "gaussianlog-block-step", F + "gaussianlog.py", r"block_counter \+= 5", "block_counter += 4", "C03-R4")
 M("C03", "fchk-quadrupole-perm", F + "fchk.py", r"\[\[0, 3, 4, 1, 5, 2\]\]", "[[0, 3, 4, 1, 2, 5]]", "C03-R5")
 M("C03", "qchem-bad-perm", F + "qchemlog.py", r"\[\[0, 1, 3, 2, 4, 5\]\]", "[[0, 1, 3, 3, 4, 5]]", "C03-R5")
+M("C03", "wfn-slice-shift", F + "wfn.py", r"occ = float\(line\[34:47\]\)", "occ = float(line[35:47])", "C03-R2")
+M("C03", "wfn-template-width", F + "wfn.py", r"OCC NO =\{2:13\.7f\}", "OCC NO ={2:14.7f}", "C03-R2")
 T("C03", "pdb-reorder-independent-assignments", F + "pdb.py", r"(    occupancy = float\(line\[54:60\]\)\n)(    bfactor = float\(line\[60:66\]\)\n)", r"\2\1")
 T("C03", "sdf-commute-offset", F + "sdf.py", r"bonds\[ibond, 1\] = int\(words\[1\]\) - 1", "bonds[ibond, 1] = -1 + int(words[1])")
 # ----------------------------------------------------------------------------- C04
